@@ -406,7 +406,9 @@ pub fn execute(case: &Case, record_seed: Option<u64>) -> Outcome {
         Some(s) => Tape::record(s),
         None => Tape::replay(case.tape.clone()),
     };
+    crate::trace::nested_init();
     clock::begin(work_budget(n), tape);
+    clock::arm_nested();
     crate::alloc::tl_start();
     let res = match case.client {
         Client::Loader(node, via) if via == 1 || via == 2 => loader_direct(case, &prep, node, via),
@@ -450,6 +452,11 @@ pub fn execute(case: &Case, record_seed: Option<u64>) -> Outcome {
                 n
             ),
         ));
+    }
+    if let Some(msg) = clock::take_nested_wrong() {
+        if out.violation.is_none() {
+            out.violation = Some(("WRONG-RESULT(nested-parse)".into(), msg));
+        }
     }
     let budget = mem_budget(n, case.input.capacity());
     out.mem_budget = budget;
